@@ -1,0 +1,104 @@
+//go:build verif
+
+// Exports for the external verification harness (lexer and the token
+// conversion functions the grammar actions call).  Compiled only with
+// -tags verif; adds no behaviour to normal builds.
+
+package syntax
+
+import "fmt"
+
+// VerifTokName gives a stable name to a token id of the generated parser.
+func VerifTokName(tokid int) string {
+	if tokid > 0 && tokid < 128 {
+		return string(rune(tokid))
+	}
+	if i := tokid - mmPrivate; i >= 0 && i < len(mmTok2) {
+		// the parser's own translation of an external token id to its
+		// internal number, whose name is in mmToknames.
+		if t := int(mmTok2[i]); t >= 1 && t-1 < len(mmToknames) {
+			return mmToknames[t-1]
+		}
+	}
+	return fmt.Sprintf("tok%d", tokid)
+}
+
+// VerifNextToken exposes nextToken: the token name and the matched length.
+func VerifNextToken(b []byte) (string, int) {
+	tokid, val := nextToken(b)
+	return VerifTokName(tokid), len(val)
+}
+
+// VerifParseInt exposes parseInt; panicked reports a panic.
+func VerifParseInt(b []byte) (v int64, panicked bool) {
+	defer func() {
+		if recover() != nil {
+			panicked = true
+		}
+	}()
+	return parseInt(b), false
+}
+
+// VerifParseFloat exposes parseFloat; panicked reports a panic.
+func VerifParseFloat(b []byte) (v float64, panicked bool) {
+	defer func() {
+		if recover() != nil {
+			panicked = true
+		}
+	}()
+	return parseFloat(b), false
+}
+
+// VerifParseFloat32 exposes parseFloat32; panicked reports a panic.
+func VerifParseFloat32(b []byte) (v float32, panicked bool) {
+	defer func() {
+		if recover() != nil {
+			panicked = true
+		}
+	}()
+	return parseFloat32(b), false
+}
+
+// VerifUnquote exposes unquoteBytes; panicked reports a panic.
+func VerifUnquote(b []byte) (v []byte, panicked bool) {
+	defer func() {
+		if recover() != nil {
+			v, panicked = nil, true
+		}
+	}()
+	return unquoteBytes(b), false
+}
+
+// VerifTok is one token as the parser receives it from mmLexInfo.Lex.
+type VerifTok struct {
+	Name      string
+	Len       int
+	Line, Col int
+}
+
+// VerifLex runs the real scanner (mmLexInfo.Lex) over src the way mmParse
+// does, up to end of input or the first INVALID token, at most max tokens.
+func VerifLex(src []byte, max int) (toks []VerifTok, comments int) {
+	info := mmLexInfo{
+		src:    src,
+		loc:    SourceLoc{Line: 1, Col: 1},
+		intern: makeStringIntern(),
+	}
+	var lval mmSymType
+	for len(toks) < max {
+		tokid := info.Lex(&lval)
+		if tokid == 0 {
+			break
+		}
+		toks = append(toks, VerifTok{
+			Name: VerifTokName(tokid),
+			Len:  len(lval.val),
+			Line: lval.loc.Line,
+			Col:  lval.loc.Col,
+		})
+		if tokid == INVALID {
+			break
+		}
+	}
+	return toks, len(info.comments)
+}
